@@ -7,6 +7,7 @@ CONSTANTS
   ModSeq <- Mods3
   MaxOut = 2
   GenRot = FALSE
+  GenBack = "first"
   MaxCtr = 1
   LoadCap = 2
   MaxReq = 4
